@@ -70,6 +70,9 @@ def run(ids=None, tier='quick'):
         if not os.path.exists(meta_p):
             continue
         meta = json.load(open(meta_p))
+        if meta.get('superseded_by_fix'):
+            print(sid, 'superseded by a repair of /repo:', meta['superseded_by_fix'][:80], flush=True)
+            continue
         scratch = tempfile.mkdtemp(prefix='optyxverif-seed-')
         outdir = tempfile.mkdtemp(prefix='optyxverif-out-')
         try:
